@@ -424,6 +424,11 @@ func (c *client) provide(outs []interface{}) error {
 }
 
 func (c *client) makeOutChan(ctx context.Context, ftyp reflect.Type, valOut int) (func() reflect.Value, makeChanSink) {
+	if ctx == nil {
+		// the function has no context parameter
+		ctx = context.Background()
+	}
+
 	retVal := reflect.Zero(ftyp.Out(valOut))
 	// retVal is set by the connection's frame executor (chCtor) and read by the caller, which
 	// may already have been answered by closeInFlight at that point
